@@ -426,8 +426,13 @@ spif_socket_accept(spif_socket_t self)
 
     ASSERT_RVAL(!SPIF_SOCKET_ISNULL(self), (spif_socket_t) NULL);
 
-    addr = SPIF_ALLOC(sockaddr);
-    len = SPIF_SIZEOF_TYPE(sockaddr);
+    /* Room for the largest address of the families handled below, zero-filled and one byte
+       longer than what the kernel is told:  for an unnamed UNIX peer only sun_family is stored,
+       and a path that fills sun_path is not NUL-terminated. */
+    len = ((SPIF_SIZEOF_TYPE(unixsockaddr) > SPIF_SIZEOF_TYPE(ipsockaddr))
+           ? (SPIF_SIZEOF_TYPE(unixsockaddr)) : (SPIF_SIZEOF_TYPE(ipsockaddr)));
+    addr = (spif_sockaddr_t) MALLOC(len + 1);
+    memset(addr, 0, len + 1);
     do {
         newfd = accept(self->fd, addr, &len);
     } while ((newfd < 0) && ((errno == EAGAIN) || (errno == EWOULDBLOCK)));
